@@ -7,6 +7,7 @@
   FOLD           unify_all starts from the bottom type, passes every element through `unify`, returns the accumulator.
   FAIL-TOP       at every consumer of unify/unify_all, the type used when unification fails is not derived from the
                  failure payload (the partial join) nor from an input: it is built independently (Any, Error, expected type).
+  JOIN-MUST-PASS once the types to combine are known, every path to the end of the construct passes the unify/unify_all call.
   CALL-PRESENCE  the inference of list/dict literals, if/else, try/catch and match goes through unify_all/unify.
 """
 from .. import shape as S
@@ -183,6 +184,70 @@ def fail_top(P, res):
             else:
                 res.ok("FAIL-TOP", key + ": failure fallback is independent of the combined types (%s)" % consumer)
     res.floor("FAIL-TOP", "consumers of unify/unify_all", n, 7)
+
+
+def join_must_pass(P, res):
+    """JOIN-MUST-PASS: once the types to be combined have been computed, every path to the end of the construct goes through
+    the unify / unify_all call: no shortcut (an early `return Type::unit()` when one branch is Unit, say) bypasses the join."""
+    n = 0
+    for p_, f in sorted(P.funcs.items()):
+        if p_ in UNIFIERS:
+            continue
+        rets = [bi for bi in f.reachable_blocks() if f.blocks[bi]["term"]["t"] == "return"]
+        for bi, t in f.calls():
+            cn = M.callee_name(t)
+            if cn not in UNIFIERS:
+                continue
+            n += 1
+            # where the inputs become available: the latest definition among the call's (de-referenced) arguments
+            starts = []
+            for a in t["args"]:
+                r = f.root_of(a, through_named=False)
+                if r[0] == "place":
+                    for (b_, si, st) in f.defs.get(r[1]["l"], []):
+                        if f.dominates(b_, bi):
+                            starts.append(b_)
+            key = "%s # %s@%s" % (p_, cn.split("::")[-1], D.arm_label(f, bi, enums={"Expression_"}) or "-")
+            if not starts:
+                res.ok("JOIN-MUST-PASS", key + ": inputs are parameters")
+                continue
+            # the latest: the one dominated by all the others
+            start = [s_ for s_ in starts if all(f.dominates(o, s_) for o in starts)]
+            start = start[0] if start else starts[-1]
+            nxt = f.blocks[start]["term"].get("target") if f.blocks[start]["term"]["t"] == "call" else None
+            begin = [nxt] if nxt is not None else f.succ[start]
+            # other join calls of the same construct are fine too (two match sites in check_match)
+            joins = [b2 for b2, t2 in f.calls() if M.callee_name(t2) in UNIFIERS]
+            esc = D.reach_from(f, begin, avoid_blocks=joins) & set(rets)
+            # leaving through a path on which the inputs are not both present (the `else` is missing, a `?`) is not a bypass:
+            # only count returns reached without passing any enum switch edge that excludes the call
+            if esc and not _only_excluded_arms(f, start, bi, esc):
+                res.bad("JOIN-MUST-PASS", key + " # bypass",
+                        "after the types to combine are known, %s can return without calling %s: the reported type on that path is not a join of "
+                        "the combined types" % (p_.split("::")[-1], cn.split("::")[-1]), f.loc(t["span"]))
+            else:
+                res.ok("JOIN-MUST-PASS", key + ": every path from the inputs to the result passes the join")
+    res.floor("JOIN-MUST-PASS", "join call sites", n, 7)
+
+
+def _only_excluded_arms(f, start, call_bb, escaping_returns):
+    """the escaping paths all leave through an enum-switch arm (taken after `start`) that does not contain the call, e.g. the
+    `None` arm of `match else_block`; a bool test on the inputs is not such an arm."""
+    for sw in D.enum_switches(f):
+        if not f.dominates(start, sw["bb"]) or sw["bb"] == start:
+            continue
+        # the call sits in exactly one arm region of this switch
+        arms = list(sw["by_target"].keys()) + ([sw["otherwise"]] if sw["otherwise"] not in sw["by_target"] else [])
+        with_call = [a for a in arms if call_bb in D.edge_dominated(f, sw["bb"], a)]
+        if len(with_call) == 1:
+            others = set()
+            for a in arms:
+                if a != with_call[0]:
+                    others |= D.reach_from(f, [a])
+            rest = D.reach_from(f, [with_call[0]], avoid_blocks=[call_bb]) & set(escaping_returns)
+            if not rest:
+                return True
+    return False
 
 
 def run(ctx, res):
@@ -420,6 +485,7 @@ def run(ctx, res):
     sites = sum(1 for p, f in P.funcs.items() for bi, t in f.calls() if M.callee_name(t) in (U, UA) and p not in (U, UA))
     res.floor("CALL-PRESENCE", "call sites of unify/unify_all outside themselves", sites, 7)
     fail_top(P if "P" in dir() else ctx.P, res)
+    join_must_pass(ctx.P, res)
     res.extra["functions_analysed"] = 3
     # ---- JOIN-INPUT-COVER (MIR): the match rule joins the types of *all* arms: in check_match every iteration of
     # the loop over the cases records the arm's type in `case_tys` (no `continue` before the push), and the vector
